@@ -47,7 +47,7 @@ PROPS = {
                      "against a registry holding 3-8 relationships; evaluation = one request answered and judged (panic, status class, state dump, 2xx body shape); "
                      "non-trivial = the request was dispatched to a keto handler (not answered by httprouter/net/http itself); distinct by (route, mutation class, answer class)"),
     # C19: mode "" = plain binary; mode "race" = the same monitor (fewer histories) under the race detector (reports become <prop>:data-race:... violations)
-    "C19": dict(test="TestC19", level="exploration", runs=[("", "plain", 16), ("race", "race", 8)], timeout=(900, 5400), floor=(150000, 500),
+    "C19": dict(test="TestC19", level="exploration", runs=[("", "plain", 16), ("race", "race", 8)], timeout=(900, 5400), floor=(250000, 800),
                 rule="case = one edit history (3-12 steps: valid / syntactically invalid / type-invalid / empty / removed-and-recreated versions, written atomically or in place) of the files of one "
                      "watched target (OPL file, OPL directory, legacy directory, legacy file) with 2-4 samplers polling the namespace manager, REST GET /namespaces and gRPC ListNamespaces; "
                      "evaluation = one (sample, watched file) decision of the version-admissibility oracle (plus one per file for the final bounded-progress check); "
